@@ -108,14 +108,40 @@ def _whole(case):
     return bool(case.get("int_matrix")) and all(float(x).is_integer() for row in case["matrix"] for x in row)
 
 
+MAX_ALIASES = [1, "max", "maximize", "+", ">", "\u25b2", "MAX", "Maximize", max, np.max, np.nanmax, np.amax]
+MIN_ALIASES = [-1, "min", "minimize", "-", "<", "\u25bc", "MIN", "Minimize", min, np.min, np.nanmin, np.amin]
+
+
+def objective_aliases(case):
+    """each objective written in one of its documented spellings (chosen deterministically from the case), so that every
+    check that builds a matrix also exercises the alias table; objectives given as +1/-1 half of the time"""
+    import hashlib
+
+    objs = list(case["objectives"])
+    h = int(hashlib.sha1(repr((case.get("criteria"), objs, case.get("alternatives"))).encode()).hexdigest(), 16)
+    if h % 2 == 0:
+        return objs
+    out = []
+    for j, o in enumerate(objs):
+        pool = MAX_ALIASES if o == 1 else MIN_ALIASES
+        out.append(pool[(h >> (3 * j + 1)) % len(pool)])
+    return out
+
+
+def _dtype(case):
+    if case.get("dtype"):
+        return np.dtype(case["dtype"])
+    return int if _whole(case) else float
+
+
 def mkdm(case):
     import skcriteria as skc
 
     with warnings.catch_warnings():
         warnings.simplefilter("ignore")
         return skc.mkdm(
-            np.array(case["matrix"], dtype=int if _whole(case) else float),
-            list(case["objectives"]),
+            np.array(case["matrix"], dtype=_dtype(case)),
+            objective_aliases(case),
             weights=np.array(case["weights"], dtype=float),
             alternatives=list(case["alternatives"]),
             criteria=list(case["criteria"]),
